@@ -8,7 +8,12 @@
    The objects share nothing but the threads.  cfg = [mutex kind]; there is no throw plan in this component.
    ops: c ... (c in 0..11) = operation c on A; 20+c ... = the same on B;
         12 fid fid2 / 13 fid fid2 : A.modify_detach(nested functor, inner B.modify_detach / B.modify_async)
-        14 fid fid2 slot / 15 ... : A.modify_async(nested functor, inner detach / async) *)
+        14 fid fid2 slot / 15 ... : A.modify_async(nested functor, inner detach / async)
+        16..19                    : as 12..15, but the nested functor submits to A ITSELF (re-submission from inside
+                                    a modification function: the drainer owns A's mutex, so the inner call always
+                                    takes the queued path; it is applied by a later drain, never by the running one)
+   A thread that is inside a functor of A and, from there, inside a call on A again has two pcs in A's automaton:
+   its own (lA) and a second one (lA2) that acts in A under the thread id nthr + t. *)
 From Coq Require Import List Arith ZArith Bool.
 Import ListNotations.
 From GV Require Import Sched Events DeferredModel.
@@ -16,14 +21,19 @@ Local Open Scope Z_scope.
 
 Inductive op2 :=
 | OnA (o : op) | OnB (o : op)
-| Nested (code : Z) (o : op) (iasync : bool) (fid2 : Z).   (* o: the outer submission to A; code: its op code *)
+| Nested (code : Z) (o : op) (self : bool) (iasync : bool) (fid2 : Z).
+  (* o: the outer submission to A; code: its op code; self: the inner submission goes to A (else to B) *)
 
 Definition decode_op2 (z : list Z) : option op2 :=
   match z with
-  | [12; f; f2] => Some (Nested 12 (ModifyDetach f) false f2)
-  | [13; f; f2] => Some (Nested 13 (ModifyDetach f) true f2)
-  | [14; f; f2; s] => Some (Nested 14 (ModifyAsync f s) false f2)
-  | [15; f; f2; s] => Some (Nested 15 (ModifyAsync f s) true f2)
+  | [12; f; f2] => Some (Nested 12 (ModifyDetach f) false false f2)
+  | [13; f; f2] => Some (Nested 13 (ModifyDetach f) false true f2)
+  | [14; f; f2; s] => Some (Nested 14 (ModifyAsync f s) false false f2)
+  | [15; f; f2; s] => Some (Nested 15 (ModifyAsync f s) false true f2)
+  | [16; f; f2] => Some (Nested 16 (ModifyDetach f) true false f2)
+  | [17; f; f2] => Some (Nested 17 (ModifyDetach f) true true f2)
+  | [18; f; f2; s] => Some (Nested 18 (ModifyAsync f s) true false f2)
+  | [19; f; f2; s] => Some (Nested 19 (ModifyAsync f s) true true f2)
   | c :: r =>
     if c <? 12 then match decode_op z with Some o => Some (OnA o) | None => None end
     else if (20 <=? c) && (c <? 32) then match decode_op (c - 20 :: r) with Some o => Some (OnB o) | None => None end
@@ -33,11 +43,12 @@ Definition decode_op2 (z : list Z) : option op2 :=
 
 (* lA / lB: the thread's state in A's and in B's automaton (their own program fields stay empty: an operation is
    handed to the object's automaton when it starts) *)
-Record loc2 := Loc2 { prog2 : list op2; lA : loc; lB : loc }.
-(* nest: the A-tasks that are nested functors, with their inner submission (async?, fid2) *)
-Record glob2 := Glob2 { gA : glob; gB : glob; nest : list (nat * (bool * Z)) }.
+Record loc2 := Loc2 { prog2 : list op2; lA : loc; lA2 : loc; lB : loc }.
+(* nest: the A-tasks that are nested functors, with their inner submission (to A itself?, async?, fid2);
+   nthr: the number of threads *)
+Record glob2 := Glob2 { gA : glob; gB : glob; nest : list (nat * (bool * bool * Z)); nthr : nat }.
 
-Fixpoint nlookup (k : nat) (l : list (nat * (bool * Z))) : option (bool * Z) :=
+Fixpoint nlookup (k : nat) (l : list (nat * (bool * bool * Z))) : option (bool * bool * Z) :=
   match l with [] => None | (k', v) :: r => if Nat.eqb k' k then Some v else nlookup k r end.
 
 (* ---------- events of B are told apart from those of A by their object ids ---------- *)
@@ -55,32 +66,47 @@ Definition DROPPED_SLOT := 99.
 Definition inner_op (ia : bool) (fid2 : Z) : op := if ia then ModifyAsync fid2 DROPPED_SLOT else ModifyDetach fid2.
 
 Definition tstep2 (t c : nat) (g : glob2) (l : loc2) : option (glob2 * loc2 * list ev) :=
-  if negb (idle (lB l)) then
+  if negb (idle (lA2 l)) then
+    (* the inner call of a functor of A that re-submits to A: the thread acts in A a second time *)
+    match tstep (nthr g + t) c (gA g) (lA2 l) with
+    | None => None
+    | Some (gA', lA2', es) =>
+      Some (Glob2 gA' (gB g) (nest g) (nthr g), Loc2 (prog2 l) (lA l) lA2' (lB l), drop_kind K_RET es)
+    end
+  else if negb (idle (lB l)) then
     (* a call on B is in progress: a top-level one, or the inner call of a nested functor (then A's pc is inside
        that functor's body and the call's return is not an event) *)
     match tstep t c (gB g) (lB l) with
     | None => None
     | Some (gB', lB', es) =>
-      Some (Glob2 (gA g) gB' (nest g), Loc2 (prog2 l) (lA l) lB',
+      Some (Glob2 (gA g) gB' (nest g) (nthr g), Loc2 (prog2 l) (lA l) (lA2 l) lB',
             map shiftB (if idle (lA l) then es else drop_kind K_RET es))
     end
   else if negb (idle (lA l)) then
     match tstep t c (gA g) (lA l) with
     | None => None
     | Some (gA', lA', es) =>
+      let plain := Some (Glob2 gA' (gB g) (nest g) (nthr g), Loc2 (prog2 l) lA' (lA2 l) (lB l), es) in
       match at_ (lA l) with
       | F_call b =>
         match nlookup (btask b) (nest g) with
-        | Some (ia, fid2) =>
+        | Some (false, ia, fid2) =>
           (* the nested functor has been invoked: it enters B.modify_* at once (no scheduling point in between) *)
           match tstep t c (gB g) (with_op (lB l) (inner_op ia fid2)) with
           | None => None
           | Some (gB', lB', esB) =>
-            Some (Glob2 gA' gB' (nest g), Loc2 (prog2 l) lA' lB', es ++ map shiftB (drop_kind K_INVOKE esB))
+            Some (Glob2 gA' gB' (nest g) (nthr g), Loc2 (prog2 l) lA' (lA2 l) lB', es ++ map shiftB (drop_kind K_INVOKE esB))
           end
-        | None => Some (Glob2 gA' (gB g) (nest g), Loc2 (prog2 l) lA' (lB l), es)
+        | Some (true, ia, fid2) =>
+          (* ... or A.modify_* again *)
+          match tstep (nthr g + t) c gA' (with_op (lA2 l) (inner_op ia fid2)) with
+          | None => None
+          | Some (gA'', lA2', esA) =>
+            Some (Glob2 gA'' (gB g) (nest g) (nthr g), Loc2 (prog2 l) lA' lA2' (lB l), es ++ drop_kind K_INVOKE esA)
+          end
+        | None => plain
         end
-      | _ => Some (Glob2 gA' (gB g) (nest g), Loc2 (prog2 l) lA' (lB l), es)
+      | _ => plain
       end
     end
   else
@@ -89,29 +115,30 @@ Definition tstep2 (t c : nat) (g : glob2) (l : loc2) : option (glob2 * loc2 * li
     | OnA o :: r =>
       match tstep t c (gA g) (with_op (lA l) o) with
       | None => None
-      | Some (gA', lA', es) => Some (Glob2 gA' (gB g) (nest g), Loc2 r lA' (lB l), es)
+      | Some (gA', lA', es) => Some (Glob2 gA' (gB g) (nest g) (nthr g), Loc2 r lA' (lA2 l) (lB l), es)
       end
     | OnB o :: r =>
       match tstep t c (gB g) (with_op (lB l) o) with
       | None => None
       | Some (gB', lB', es) =>
-        Some (Glob2 (gA g) gB' (nest g), Loc2 r (lA l) lB', map shiftB (set_invoke (opcode o + 20) es))
+        Some (Glob2 (gA g) gB' (nest g) (nthr g), Loc2 r (lA l) (lA2 l) lB', map shiftB (set_invoke (opcode o + 20) es))
       end
-    | Nested code o ia fid2 :: r =>
+    | Nested code o self ia fid2 :: r =>
       match tstep t c (gA g) (with_op (lA l) o) with
       | None => None
       | Some (gA', lA', es) =>
-        Some (Glob2 gA' (gB g) ((ntasks (gA g), (ia, fid2)) :: nest g), Loc2 r lA' (lB l), set_invoke code es)
+        Some (Glob2 gA' (gB g) ((ntasks (gA g), (self, ia, fid2)) :: nest g) (nthr g), Loc2 r lA' (lA2 l) (lB l),
+              set_invoke code es)
       end
     end.
 
 Definition fin2 (l : loc2) : bool :=
-  idle (lA l) && idle (lB l) && match prog2 l with [] => true | _ => false end.
+  idle (lA l) && idle (lA2 l) && idle (lB l) && match prog2 l with [] => true | _ => false end.
 
 Definition init_glob (m : Z) : glob := gl (init m [] []).
 Definition init_loc : loc := Loc [] Idle [] [].
 Definition init2 (m : Z) (progs : list (list op2)) : sys glob2 loc2 :=
-  Sys (Glob2 (init_glob m) (init_glob m) []) (map (fun p => Loc2 p init_loc init_loc) progs).
+  Sys (Glob2 (init_glob m) (init_glob m) [] (length progs)) (map (fun p => Loc2 p init_loc init_loc init_loc) progs).
 
 (* ---------- entry point of the correspondence check ---------- *)
 Fixpoint decode_prog2 (p : list (list Z)) : list op2 :=
